@@ -1334,6 +1334,14 @@ impl Scenario for C07 {
         out.nontrivial = out.evaluations > 0;
         let mut lg = ctx.log.lock().unwrap();
         out.sig = lg.sig;
+        if out.violation.is_some() && lg.lines.len() > 6 {
+            // the trace of a failing run: the sequence, then only the last
+            // enumerated cases (the failing one is the last)
+            let n = lg.lines.len();
+            let mut keep = vec![lg.lines[0].clone(), format!("... {} enumerated cases passed ...", n - 4)];
+            keep.extend_from_slice(&lg.lines[n - 3..]);
+            lg.lines = keep;
+        }
         out.log = std::mem::take(&mut lg.lines);
         drop(lg);
         let tape = ctx.tape.lock().unwrap().clone();
